@@ -2544,6 +2544,60 @@ fn main() {
             println!("mismatches={}", bad);
             println!("first_mismatch={}", first);
         }
+        // compaction_write_fault_sweep : for k = 1..14 the k-th file-system operation on a table file fails (and all later ones) while a manual
+        // compaction of two overlapping level-0 tables runs; the requester must return, the background thread must not panic, the database must close
+        "compaction_write_fault_sweep" => {
+            use raindb::WriteOptions;
+            let panicked = std::sync::Arc::new(std::sync::atomic::AtomicBool::new(false));
+            let p2 = std::sync::Arc::clone(&panicked);
+            std::panic::set_hook(Box::new(move |info| {
+                p2.store(true, std::sync::atomic::Ordering::SeqCst);
+                eprintln!("panic: {}", info);
+            }));
+            let mut verdict = "none".to_string();
+            for k in 1..=14usize {
+                let fs = rdbv::faultfs::FaultFs::new();
+                let mut o = raindb::DbOptions::with_memory_env();
+                o.filesystem_provider = std::sync::Arc::new(fs.clone());
+                o.db_path = "db".to_string();
+                o.create_if_missing = true;
+                let db = std::sync::Arc::new(raindb::DB::open(o).expect("open"));
+                db.hold_background_for_verif(true);
+                for round in 0..2 {
+                    for i in 0..40 {
+                        db.put(WriteOptions::default(), format!("key{:03}", i).into_bytes(), format!("value{}-{}", round, i).repeat(20).into_bytes()).unwrap();
+                    }
+                    db.flush_to_level_zero_for_verif();
+                }
+                fs.arm(".rdb", k, true);
+                db.hold_background_for_verif(false);
+                let (tx, rx) = std::sync::mpsc::channel();
+                let db2 = std::sync::Arc::clone(&db);
+                std::thread::spawn(move || {
+                    db2.force_level_compaction_for_verif(0);
+                    let _ = tx.send(());
+                });
+                let requester = rx.recv_timeout(std::time::Duration::from_secs(10)).is_ok();
+                let hit = fs.failures() > 0;
+                fs.disarm();
+                let (tx2, rx2) = std::sync::mpsc::channel();
+                if requester {
+                    std::thread::spawn(move || {
+                        drop(db);
+                        let _ = tx2.send(());
+                    });
+                }
+                let closed = requester && rx2.recv_timeout(std::time::Duration::from_secs(10)).is_ok();
+                let bad = panicked.load(std::sync::atomic::Ordering::SeqCst) || !requester || !closed;
+                println!("k{}=fault_hit:{} requester_returned:{} closed:{} panicked:{}", k, hit, requester, closed, panicked.load(std::sync::atomic::Ordering::SeqCst));
+                if bad {
+                    verdict = format!("k{}", k);
+                    break;
+                }
+            }
+            println!("first_bad={}", verdict);
+            std::process::exit(0);
+        }
         // cache_ids : eight threads draw 50000 block-cache ids each from the default block cache; ids must be unique
         "cache_ids" => {
             let o = raindb::DbOptions::with_memory_env();
